@@ -1,15 +1,27 @@
 """Importable hook functions for daemons built from a configuration file
-(hooks are given there by dotted name)."""
+(hooks are given there by dotted name). The world of the running episode
+sets RECORDER so that their calls appear in its hook log like those of the
+scripted hooks."""
+
+RECORDER = None
+
+
+def _note(watcher, hook_name, out, kw):
+    if RECORDER is not None:
+        RECORDER(getattr(watcher, 'name', '?'), hook_name, out, kw)
 
 
 def veto(watcher, arbiter, hook_name, **kw):
+    _note(watcher, hook_name, 'false', kw)
     return False
 
 
 def agree(watcher, arbiter, hook_name, **kw):
+    _note(watcher, hook_name, 'true', kw)
     return True
 
 
 def fail(watcher, arbiter, hook_name, **kw):
     from .world import ScriptedFailure
+    _note(watcher, hook_name, 'raise', kw)
     raise ScriptedFailure('hook %s scripted failure' % hook_name)
